@@ -32,7 +32,7 @@ func nilNilFuncs(c *Ctx) map[*ssa.Function]*ssa.Return {
 			continue
 		}
 		for _, r := range returns(fn) {
-			if isNilConst(retVal(r, 0)) && isNilConst(retVal(r, ei)) {
+			if mayBeNilPtr(retVal(r, 0), 0) && isNilConst(retVal(r, ei)) {
 				out[fn] = r
 			}
 		}
@@ -304,4 +304,19 @@ func ruleDecodedPointers(c *Ctx, rule string) {
 	if n == 0 {
 		c.undecided(rule, fn, "decoded pointers", nil, "no dereference of a pointer decoded from the configuration found")
 	}
+}
+
+// mayBeNilPtr: the value is the nil constant, or a merge one of whose inputs is.
+func mayBeNilPtr(v ssa.Value, depth int) bool {
+	if isNilConst(v) {
+		return true
+	}
+	if ph, ok := v.(*ssa.Phi); ok && depth < 6 {
+		for _, e := range ph.Edges {
+			if mayBeNilPtr(e, depth+1) {
+				return true
+			}
+		}
+	}
+	return false
 }
